@@ -179,7 +179,9 @@ CFG = dict(
                "series, before the nulls): every successful result on the original series is the result on the series with "
                "nulls inserted, and outright equality under the index law ceil((n-1) q) <= n-1 (proved at option R); inserting "
                "nulls into a series leaves the rank of every original element unchanged and gives the inserted positions the "
-               "null rank (option R, from the C12 characterisation: vrank is a map of a function of the valid elements). "
+               "null rank (option R, from the C12 characterisation: vrank is a map of a function of the valid elements); the "
+               "option view of vpartition is a function of the non-null elements only, hence unchanged by null insertion "
+               "(every carrier, T::none() a null). "
                "Still partial: rank transparency at a generic carrier (the length-1 early return writes the literal 1.0 where "
                "the loop computes 1 as f64 [/ 1 as f64]: needs laws of the numeric class); the index law at binary64 is not "
                "proved in Coq (monotone rounding), so at binary64 quantile transparency is the `Ok r` form. Tied to the "
